@@ -14,7 +14,7 @@ import dlib  # noqa: E402
 
 logging.disable(logging.CRITICAL)
 
-from traits.api import (Undefined, Any, Dict, HasTraits, Int, List, Property, ReadOnly, Set, Str, TraitError,  # noqa: E402
+from traits.api import (Undefined, Instance, Any, Dict, HasTraits, Int, List, Property, ReadOnly, Set, Str, TraitError,  # noqa: E402
                         cached_property, observe, push_exception_handler, pop_exception_handler)
 from traits.trait_list_object import TraitListObject  # noqa: E402
 from traits.trait_dict_object import TraitDictObject  # noqa: E402
@@ -23,6 +23,14 @@ from traits.trait_set_object import TraitSetObject  # noqa: E402
 VALID_INT = 1000
 COUNT = [0]
 DECL = []          # (object, trait name) of declared observers that fired
+
+
+class Child(HasTraits):
+    v = Int()
+    tags = List(Str)
+
+
+GRAPH_LOG = []
 
 
 def trait_of(t, md):
@@ -60,6 +68,17 @@ def make_class(case):
             getter.__name__ = "_get_cnt_" + name     # cached_property derives the cache key from it
             ns["_get_cnt_" + name] = cached_property(getter)
             ns["cnt_" + name] = Property(Int, observe=name + ".items")
+    if case.get("graph"):
+        ns["inst"] = Instance(Child)
+        ns["kids"] = List(Instance(Child))
+
+        def _kids_items(self, event):
+            GRAPH_LOG.append(("items", self))
+
+        def _kids_v(self, event):
+            GRAPH_LOG.append(("v", self))
+        ns["_g_kids_items"] = observe("kids.items")(_kids_items)
+        ns["_g_kids_v"] = observe("kids.items.v")(_kids_v)
     COUNT[0] += 1
     cname = "C14K%d" % COUNT[0]
     ns["__module__"] = "__main__"
@@ -204,6 +223,67 @@ def build_item(t):
     return VALID_INT
 
 
+def graph_probes(pool, o, c):
+    """Instance graph fixture: inst = Instance(Child), kids = List(Instance(Child))."""
+    out = []
+
+    def state(ch):
+        return None if ch is None else (ch.v, list(ch.tags))
+    # 900: the Instance child; 904: the children in the list
+    out.append(["inst", 900, c.inst is o.inst, state(c.inst) == state(o.inst) and type(c.inst) is Child])
+    out.append(["inst", 904, any(a is b for a in c.kids for b in o.kids),
+                [state(x) for x in c.kids] == [state(x) for x in o.kids]])
+    # 901: the child's own container is live on the copy's child
+    wi, wo = [], []
+    hs = {}
+    for side, ch in ((0, o.inst), (1, c.inst)):
+        def hi(side=side):
+            pass
+        h1, h2 = make_side_handlers(side, wi, wo)
+        hs[side] = (ch, h1, h2)
+        ch.on_trait_change(h1, "tags_items")
+        ch.observe(h2, "tags.items")
+    inv = outcome(lambda: c.inst.tags.append(3))
+    del wi[:], wo[:]
+    val = outcome(lambda: c.inst.tags.append("y"))
+    out.append(["cont", 901, [], inv, val, list(wi), list(wo), list(wo), True])
+    for side, (ch, h1, h2) in hs.items():
+        ch.on_trait_change(h1, "tags_items", remove=True)
+        ch.observe(h2, "tags.items", remove=True)
+    # 902: the list of children: invalid item rejected; valid append fires the copy's handlers / declared observer
+    wi, wo = [], []
+    hs = {}
+    for side, par in ((0, o), (1, c)):
+        h1, h2 = make_side_handlers(side, wi, wo)
+        hs[side] = (par, h1, h2)
+        par.on_trait_change(h1, "kids_items")
+        par.observe(h2, "kids.items")
+    inv = outcome(lambda: c.kids.append(3))
+    del wi[:], wo[:], GRAPH_LOG[:]
+    val = outcome(lambda: c.kids.append(Child(v=5)))
+    wd = [pool.who(s) for what, s in GRAPH_LOG if what == "items"]
+    out.append(["cont", 902, [], inv, val, list(wi), list(wo), wd, True])
+    for side, (par, h1, h2) in hs.items():
+        par.on_trait_change(h1, "kids_items", remove=True)
+        par.observe(h2, "kids.items", remove=True)
+    # 903: a change inside a child of the copy reaches the copy's declared observer, not the original's
+    inv = outcome(lambda: setattr(c.kids[0], "v", "x"))
+    del GRAPH_LOG[:]
+    val = outcome(lambda: setattr(c.kids[0], "v", 77))
+    wd = [pool.who(s) for what, s in GRAPH_LOG if what == "v"]
+    out.append(["cont", 903, [], inv, val, wd, wd, wd, True])
+    return out
+
+
+def make_side_handlers(side, wi, wo):
+    def h1():
+        wi.append(side)
+
+    def h2(event):
+        wo.append(side)
+    return h1, h2
+
+
 def run_case(case):
     K = make_class(case)
     o = K()
@@ -219,6 +299,9 @@ def run_case(case):
                 c = navigate(getattr(o, name), h[2])
                 append(c, build(h[3], elem_type(d["type"], h[2])))
             hist_out.append(outcome(f))
+    if case.get("graph"):
+        o.inst = Child(v=3, tags=["x"])
+        o.kids = [Child(v=1, tags=["a"]), Child(v=2)]
     op = case["op"]
     bt = K.__base_traits__
     meta = [[d["k"], bt["t%d" % d["k"]].copy, bool(bt["t%d" % d["k"]].transient)] for d in case["cls"]]
@@ -265,6 +348,8 @@ def run_case(case):
             probes.append(["scalar", d["k"], outcome(lambda: setattr(c, name, "x"))])
         elif t == "ro":
             probes.append(["ro", d["k"], outcome(lambda: setattr(c, name, 5))])
+    if case.get("graph"):
+        probes += graph_probes(pool, o, c)
     res["probes"] = probes
     return res
 
